@@ -43,7 +43,7 @@ fn outbound_sequence<R: OutboundAliasResolver>(r: &mut R, max: u16, steps: usize
 
 // @gv props=C17 tier=quick required=yes fns=ManualOutboundAliasResolver::resolve_and_apply_topic_alias,ManualOutboundAliasResolver::resolve_topic_alias,ManualOutboundAliasResolver::reset_for_new_connection
 // @gv bounds="manual resolver: server maximum symbolic 0..3, three publishes with symbolic topic (of three) and symbolic alias wish (none / 0..4), checked against a model of the server's alias table"
-// @gv timeout=1200 mem=12
+// @gv timeout=1200 mem=6
 #[kani::proof]
 #[kani::unwind(8)]
 #[kani::stub(std::fmt::format, stub_format)]
@@ -102,7 +102,7 @@ fn lru_body(configured: u16, steps: usize) {
 
 // @gv props=C17 tier=quick required=yes fns=LruOutboundAliasResolver::resolve_and_apply_topic_alias,LruOutboundAliasResolver::resolve_topic_alias,LruOutboundAliasResolver::reset_for_new_connection
 // @gv bounds="LRU resolver configured for 3 aliases, server maximum symbolic 0..3, four publishes with symbolic topics (of three): every eviction/re-announcement pattern of that length; lru::LruCache replaced by its contract model"
-// @gv timeout=1500 mem=14
+// @gv timeout=1500 mem=6
 #[kani::proof]
 #[kani::unwind(8)]
 #[kani::stub(std::fmt::format, stub_format)]
@@ -110,7 +110,7 @@ fn c17_lru_conf3_steps4() { lru_body(3, 4) }
 
 // @gv props=C17 tier=quick required=yes fns=LruOutboundAliasResolver::resolve_and_apply_topic_alias,LruOutboundAliasResolver::resolve_topic_alias
 // @gv bounds="LRU resolver configured for 1 alias, server maximum symbolic 0..3, four publishes with symbolic topics"
-// @gv timeout=1500 mem=14
+// @gv timeout=1500 mem=6
 #[kani::proof]
 #[kani::unwind(8)]
 #[kani::stub(std::fmt::format, stub_format)]
@@ -126,7 +126,7 @@ fn c17_lru_conf2_steps5() { lru_body(2, 5) }
 
 // @gv props=C17,C11 tier=quick required=yes fns=InboundAliasResolver::resolve_topic_alias,InboundAliasResolver::reset_for_new_connection
 // @gv bounds="inbound resolver with symbolic maximum 0..3: two inbound publishes with symbolic alias (none / 0..4) and topic (one of three, or empty), then a reconnect and a third publish"
-// @gv timeout=1200 mem=12
+// @gv timeout=1200 mem=6
 #[kani::proof]
 #[kani::unwind(8)]
 #[kani::stub(std::fmt::format, stub_format)]
